@@ -27,7 +27,7 @@ def runner_ensures(fn, nparams, valued):
 
 UNITS["v_closure_runner"] = dict(
     prop=["C13", "C06", "C07"], tier="q", prelude=["interp.rs", "closure.rs"],
-    witness=[],
+    native_witness=["closure_scope", "ctl_programs"],
     fns=[
         dict(id="cleanup", file=CLOSURE, impl=None, name="cleanup",
              orig_sig="fn cleanup(state: &mut RuntimeState, ident: Option<&Ident>, data: Option<Value>)",
@@ -84,7 +84,7 @@ RW_FALSE_INTO = dict(**{"from": "Ok(false.into())", "to": "Ok(Value::Boolean(fal
 RW_OK_INTO = dict(**{"from": r"Ok\((\(?!?lhs\.eq_lossy\(&rhs\)\)?)\.into\(\)\)", "to": r"Ok(Value::Boolean(\1))", "regex": True, "why": "From<bool> for Value"})
 
 UNITS["v_op_resolve"] = dict(
-    prop=["C06", "C07", "C08", "C09"], tier="q", prelude=["interp.rs", "nodes.rs", "op.rs"],
+    prop=["C06", "C07", "C08", "C09"], tier="q", prelude=["interp.rs", "nodes.rs", "op.rs"], native_witness=["ctl_programs"],
     fns=[dict(
         id="op_resolve", file=OPRS, impl="impl Expression for Op", name="resolve",
         orig_sig="fn resolve(&self, ctx: &mut Context) -> Resolved",
@@ -200,7 +200,7 @@ ABORT_MSG = dict(**{
     "why": "Option::map(f).transpose()? by definition; try_bytes_utf8_lossy()?.to_string() is the opaque conversion try_message"})
 
 UNITS["v_nodes"] = dict(
-    prop=["C06", "C07", "C08", "C09"], tier="q", prelude=["interp.rs", "nodes.rs"],
+    prop=["C06", "C07", "C08", "C09"], tier="q", prelude=["interp.rs", "nodes.rs"], native_witness=["ctl_programs"],
     fns=[
         dict(id="not", file=EXPR + "not.rs", impl="impl Expression for Not", name="resolve", orig_sig=SIG_RESOLVE,
              wrap=("impl Not {", "}"), sig=VSIG,
@@ -335,7 +335,7 @@ NODES += [
 
 
 UNITS["v_value_error_from"] = dict(
-    prop=["C06", "C07", "C08"], tier="q", prelude=["interp.rs", "nodes.rs", "op.rs"],
+    prop=["C06", "C07", "C08"], tier="q", prelude=["interp.rs", "nodes.rs", "op.rs"], native_witness=["ctl_programs"],
     fns=[dict(
         id="value_error_from", file="src/compiler/value/error.rs", impl="impl From<ValueError> for ExpressionError", name="from",
         orig_sig="fn from(err: ValueError) -> Self",
@@ -384,7 +384,7 @@ proof fn law_remove_is_get(s: Seq<Value>, key: int)
 '''
 
 UNITS["v_crud_vec"] = dict(
-    prop=["C18"], tier="q", prelude=["crud.rs"], extra=LAWS,
+    prop=["C18"], tier="q", prelude=["crud.rs"], extra=LAWS, native_witness=["crud_vec"],
     fns=[
         dict(id="array_index", file=CRUD, impl=None, name="array_index",
              orig_sig="fn array_index(array: &[Value], index: isize) -> Option<usize>",
@@ -431,7 +431,7 @@ UNITS["v_crud_vec"] = dict(
 
 # ------------------------------------------------------------------------------------------------
 UNITS["v_format_radix"] = dict(
-    prop=["C25", "C04", "C05"], tier="q", prelude=["format_int.rs"],
+    prop=["C25", "C04", "C05"], tier="q", prelude=["format_int.rs"], native_witness=["format_int"],
     extra='''
 proof fn lemma_round_trip(x: i64, radix: int, out: Seq<char>)
     requires out.len() >= 1, (x < 0) == (out[0] == '-'),
